@@ -23,7 +23,7 @@ func init() {
 	register(&propDef{
 		ID: "C03",
 		Meta: propMeta{
-			Explanation: "Decides structural necessary conditions (nothing is executed): (R03a) every registered signer of a container format returns its result through SignOpts.SetBinPatch or SetPkcs7 (a patch against, or a blob next to, the original bytes), never a rewritten copy of the input; the frozen table lists the signers whose output is by nature a new document (pgp, cosign, appmanifest, pkcs); (R03b) the CFB allocator makeFreeSectors appends a sector id to its result only if the table entry at that index equals the free marker or the index lies beyond the old end of the table, and every writeSector / writeShortSector call on the writing side targets an allocator result or a sector listed in the MSAT / MSAT-list (the table's own sectors); (R03c) comdoc.DeleteFile frees sector chains only for the directory entries whose name matched and refuses anything that is not a stream, and AddFile deletes exactly the name it adds; (R03d) the ZIP manglers keep existing members by re-indexing: Directory.Mangle and JarDigest.insertSignature hand kept members to Directory.AddFile in directory order and never dump, reopen or re-create them; Directory.AddFile changes nothing of a member but its offset and drops the cached raw header only when the offset changed.",
+			Explanation: "Decides structural necessary conditions (nothing is executed): (R03a) every registered signer of a container format returns its result through SignOpts.SetBinPatch or SetPkcs7 (a patch against, or a blob next to, the original bytes), never a rewritten copy of the input; the frozen table lists the signers whose output is by nature a new document (pgp, cosign, appmanifest, pkcs); (R03b) the CFB allocator makeFreeSectors appends a sector id to its result only if the table entry at that index equals the free marker or the index lies beyond the old end of the table, and every writeSector / writeShortSector call on the writing side targets an allocator result or a sector listed in the MSAT / MSAT-list (the table's own sectors); (R03c) comdoc.DeleteFile frees sector chains only for the directory entries whose name matched and refuses anything that is not a stream, and AddFile deletes exactly the name it adds; (R03d) the ZIP manglers keep existing members by re-indexing: Directory.Mangle and JarDigest.insertSignature hand kept members to Directory.AddFile in directory order and never dump, reopen or re-create them; Directory.AddFile changes nothing of a member but its offset and drops the cached raw header only when the offset changed; (R03e) rewrites act on the metadata as read: DeleteFile frees an entry's chain before blanking the entry, zipslicer decides the presence of a data descriptor from the local header's flag bit 3, and binpatch's in-place path sets the file to exactly Offset+NewSize of the last patch (not a maximum).",
 			NotDecided:  "that every payload item of an output has exactly its input bytes (C12 decides that patches apply exactly, C17/C18 the container bookkeeping); well-formedness of the output for an independent reader; the refusal of inputs relic cannot rewrite safely in general (only the refusals named above).",
 			Assumptions: []string{"a binary patch leaves every byte outside its regions untouched (decided separately by C12)"},
 		},
@@ -49,6 +49,7 @@ func runC03(c *Ctx) {
 	c03Allocator(c)
 	c03Delete(c)
 	c03Zip(c)
+	c03ReadBeforeOverwrite(c)
 }
 
 func c03Results(c *Ctx) {
@@ -344,4 +345,123 @@ func c03Zip(c *Ctx) {
 		}
 	}
 	c.Check(only && stores["Offset"] == 1 && rawNilGuarded, "R03d", "Directory.AddFile changes only the member's offset", p.Pos(af.Pos()), fmt.Sprint(stores), fmt.Sprintf("Directory.AddFile writes member fields %v (only Offset, and raw=nil when the offset changed, are expected): a kept member's recorded sizes, CRC or name change although its bytes were not touched", stores))
+}
+
+// ------------------------------------------------------------------------------ R03e
+
+// c03ReadBeforeOverwrite: rewriting acts on metadata as it was read from the input.
+func c03ReadBeforeOverwrite(c *Ctx) {
+	p := c.P
+	c.Rule("R03e", "rewrites act on the metadata as read: an entry is blanked after its chain was freed, descriptor presence comes from the local header, the in-place result has exactly the prescribed length", 3)
+	// (1) DeleteFile: no freeSectors call (which reads item.StreamSize / item.NextSector) after the
+	// entry was blanked, within one iteration
+	if df := p.Func("lib/comdoc.(*ComDoc).DeleteFile"); df == nil {
+		c.Undecided("R03e", "DeleteFile", "-", "function not found")
+	} else {
+		var blank *ssa.Store
+		for _, b := range df.Blocks {
+			for _, in := range b.Instrs {
+				if st, ok := in.(*ssa.Store); ok && strings.HasSuffix(st.Val.Type().String(), "comdoc.DirEnt") {
+					blank = st
+				}
+			}
+		}
+		frees := p.callsIn(df, "lib/comdoc.freeSectors")
+		ok := blank != nil && len(frees) == 2
+		if ok {
+			// one iteration: do not re-enter the block that computes the entry's address
+			del := map[edge]bool{}
+			if ia, isIA := blank.Addr.(*ssa.IndexAddr); isIA {
+				db := ia.Block()
+				for _, pb := range db.Preds {
+					for si, s := range pb.Succs {
+						if s == db {
+							del[edge{pb.Index, si}] = true
+						}
+					}
+				}
+			}
+			for _, f := range frees {
+				if reachableAfter(df, blank, f, del, nil) {
+					ok = false
+				}
+			}
+			// and the values handed to freeSectors are not loaded after the blanking either
+			for _, f := range frees {
+				if l, isL := stripConvAll(f.Common().Args[1]).(*ssa.UnOp); isL {
+					if reachableAfter(df, blank, l, del, nil) {
+						ok = false
+					}
+				}
+			}
+		}
+		c.Check(ok, "R03e", "DeleteFile frees the chain before blanking the entry", p.Pos(df.Pos()), "", "the directory entry is blanked before its StreamSize / NextSector are read for freeing: the chain that gets freed starts at sector 0 of the short-sector table instead of at the deleted stream, so re-signing frees (and then overwrites) sectors of an unrelated stream")
+	}
+	// (2) zipslicer: descriptor presence is tested on the LOCAL header flags
+	n := 0
+	okAll := true
+	where := ""
+	for _, fn := range p.pkgFuncs("lib/zipslicer") {
+		for _, b := range fn.Blocks {
+			for _, in := range b.Instrs {
+				bo, ok := in.(*ssa.BinOp)
+				if !ok || bo.Op != token.AND || !isIntConst(bo.Y, 8) {
+					continue
+				}
+				tn, fld, _ := p.fieldLoad(stripConvAll(bo.X))
+				if fld != "Flags" {
+					continue
+				}
+				n++
+				if tn != "lib/zipslicer.zipLocalHeader" {
+					okAll = false
+					where = p.Pos(bo.Pos()) + " (" + tn + ")"
+				}
+			}
+		}
+	}
+	c.Check(okAll && n >= 2, "R03e", "data-descriptor presence is read from the local header", "-", fmt.Sprintf("%d tests of flag bit 3, all on zipLocalHeader.Flags", n), "flag bit 3 (data descriptor follows) is tested on "+where+" instead of the local file header: for a member whose two headers disagree the member's extent is misjudged by the size of the descriptor, every following offset shifts and the rewritten archive is unreadable")
+	// (3) binpatch in-place: the final length is assigned, not maximised
+	if ap := p.Func("lib/binpatch.(*PatchSet).Apply"); ap == nil {
+		c.Undecided("R03e", "PatchSet.Apply", "-", "function not found")
+	} else {
+		tr := p.callsIn(ap, "(*os.File).Truncate")
+		ok := len(tr) == 1
+		detail := ""
+		if ok {
+			size := tr[0].Common().Args[1]
+			// leaves: ininfo.Size() and Offset+NewSize; the latter must not enter under a comparison with the size itself
+			for _, lf := range phiLeaves(size, nil, map[*ssa.Phi]bool{}) {
+				bo, isAdd := lf.V.(*ssa.BinOp)
+				if !isAdd || bo.Op != token.ADD || lf.From == nil {
+					continue
+				}
+				// is the edge From->To control-dependent on an ordering test that mentions this sum?
+				for _, b := range ap.Blocks {
+					ifi, isIf := b.Instrs[len(b.Instrs)-1].(*ssa.If)
+					if !isIf {
+						continue
+					}
+					cmp, isCmp := ifi.Cond.(*ssa.BinOp)
+					if !isCmp {
+						continue
+					}
+					switch cmp.Op {
+					case token.LSS, token.LEQ, token.GTR, token.GEQ:
+					default:
+						continue
+					}
+					if (cmp.X == ssa.Value(bo) || cmp.Y == ssa.Value(bo)) && reach(ap, b.Succs[:1], nil, nil)[lf.From.Index] != reach(ap, b.Succs[1:], nil, nil)[lf.From.Index] {
+						ok = false
+						detail = p.Pos(cmp.Pos())
+					}
+					if (cmp.X == ssa.Value(bo) || cmp.Y == ssa.Value(bo)) && (b.Succs[0] == lf.From || b.Succs[1] == lf.From || b == lf.From) {
+						ok = false
+						detail = p.Pos(cmp.Pos())
+					}
+				}
+			}
+		}
+		c.Check(ok, "R03e", "in-place patching sets the file to exactly the prescribed length", p.Pos(ap.Pos()), "", "the final length of the in-place result is only taken over when it compares larger ("+detail+"): a trailing replacement that is shorter than what it replaces leaves the old tail in the file, while the rewrite path produces the right length")
+	}
 }
